@@ -55,7 +55,7 @@ def ownership(chk, lib):
                 if isinstance(stored, tuple) and stored[1] and stored[1][0] == "addr":
                     own.setdefault(stored[1][1], {}).setdefault(iface, addr)
         except c12.Unmodelled as e:
-            chk.broke("%s: %s" % (name, e))
+            own.setdefault("<unmodelled>", {})[iface] = str(e)
     _OWN[id(lib)] = own
     return own
 
@@ -68,7 +68,14 @@ def binding_rule(chk, rule, lib, scope):
     from report import Finding
     own = ownership(chk, lib)
     n = 0
+    for iface_, why in sorted(own.get("<unmodelled>", {}).items()):
+        if iface_.startswith(tuple(scope)):
+            chk.broke("%s_dispatch_init: %s" % (iface_, why))
+        else:
+            chk.notes.append("dispatcher of %s not modelled (%s): its bindings are not part of the ownership comparison" % (iface_, why))
     for cand in sorted(own):
+        if cand == "<unmodelled>":
+            continue
         ifs = own[cand]
         mine = [i for i in ifs if i.startswith(tuple(scope))]
         if not mine:
